@@ -24,7 +24,7 @@ import lib_builtins as L
 PROP = "C13"
 ALL_GROUPS = ["num", "pred", "ctor", "dict", "list", "set", "bytearray", "str", "ucs4"]
 NO_EXC_SHAPES = {"bool", "isinstance", "str"}      # shapes whose reference never raises on the modelled domain
-KEYED_SHAPES = {"d_pop1", "l_pop1", "d_getitem", "s_remove"}      # failing lookups raise KeyError(key): the key is compared
+KEYED_SHAPES = {"d_pop1", "l_pop1", "d_getitem", "d_delitem", "s_remove"}      # failing lookups raise KeyError(key): the key is compared
 KEY_CLASSES = {"none", "tuple", "exc", "plain"}
 
 
